@@ -116,6 +116,35 @@ def run_conc_harness(chk, behaviours, name="conc"):
     chk.cov["events"] += info["events"]
     return sorted(glob.glob(f"{outd}/trace_*.ndjson"))
 
+def validate_proto(chk, behaviours, name="proto"):
+    """Op-level conformance: the gate-scheduled runs once more, recording akd's transaction linearization points
+    (guarded trace hook), the database writes and the call returns in real order; TLC validates every event
+    against the effects of AkdConcurrent (TraceConcurrent.tla) and evaluates its invariants in every state."""
+    gated = [dict(b, proto=True) for b in behaviours if not b.get("mt")]
+    inp = f"{chk.wd}/{name}_behaviours.ndjson"
+    with open(inp, "w") as f:
+        for b in gated:
+            f.write(json.dumps(b) + "\n")
+    outd = f"{chk.wd}/{name}_traces"
+    rc, out, err = sh(f"{BIN} conc --in {inp} --out {outd} --threads {min(NCPU, 16)}", timeout=3000)
+    if rc != 0:
+        raise ToolError(f"harness conc (protocol mode) failed rc={rc}: {err[-2000:]}")
+    info = json.loads(out.strip().splitlines()[-1])
+    traces = sorted(glob.glob(f"{outd}/trace_*.ndjson"))
+    results = validate_traces("TraceConcurrent", "TraceConcurrent.cfg", traces, chk.wd, chunk=6000)
+    before = chk.cov["traces_validated_against_impl"]
+    chk.handle_validation(results, label="op-level protocol ")
+    kinds = {}
+    for t in traces:
+        with open(t) as f:
+            for line in f:
+                ev = json.loads(line)["ev"]
+                kinds[ev] = kinds.get(ev, 0) + 1
+    chk.cov["protocol_runs_validated"] = chk.cov["traces_validated_against_impl"] - before
+    chk.cov["protocol_events"] = kinds
+    chk.cov["checker_cmd"] += " ; tlc -workers 1 -config TraceConcurrent.cfg TraceConcurrent.tla (per protocol trace file)"
+    return kinds
+
 TAIL = [1] * 80 + [2] * 80 + [3] * 80 + [4] * 80 + [5] * 80
 
 PUB_SCENARIOS = [
@@ -169,9 +198,17 @@ def c12():
         add([[["a", "x"]]], [{"pid": i + 1, "kind": "publish", "batch": bt} for i, bt in enumerate(batches)], [], ["none", "default"][k % 2])
         bs[-1]["mt"] = True
         bs[-1]["par"] = "s2"
+    # (v) a storage operation of one publisher fails while the other is under way (fault x interleaving)
+    for si, (prefix, b1, b2) in enumerate(PUB_SCENARIOS):
+        for k in (range(1, 16) if chk.tier == "quick" else range(1, 24)):
+            for i in ((0, 3, 7) if chk.tier == "quick" else range(0, 12)):
+                add(prefix, [{"pid": 1, "kind": "publish", "batch": b1}, {"pid": 2, "kind": "publish", "batch": b2}],
+                    [2] * i + [1] * 80 + [2] * 80, ["none", "default"][(k + i) % 2])
+                bs[-1]["faults"] = [[1, k]]
     traces = run_conc_harness(chk, bs)
     results = validate_traces("TraceDirectory", "TraceDirectory.cfg", traces, chk.wd)
     chk.handle_validation(results)
+    validate_proto(chk, bs)
     both = 0
     refused = 0
     seen = set()
@@ -288,6 +325,7 @@ def c13():
     ctraces = run_conc_harness(chk, bs)
     results = validate_traces("TraceDirectory", "TraceDirectory.cfg", ltraces + ctraces, chk.wd)
     chk.handle_validation(results)
+    validate_proto(chk, bs)
     answers = {}
     seen = set()
     for evs in props_dir.scan_behaviours(ltraces + ctraces):
@@ -311,7 +349,7 @@ def c13():
         "two publishes under TLC-exported interleavings and 'reader i operations, publishes complete, reader finishes' schedules through the gate. "
         "Every answer is verified by akd's client verifier against the pair returned with it and TLC validates: error, or a pair really published with "
         "the results as of exactly that epoch. Non-trivial = distinct runs in which some answer is an error or comes from an epoch behind storage.")
-    chk.assumptions += ["interleavings at storage-operation granularity (a reader on a clone of the writer that reads the pending epoch record from the shared transaction log between two statements of publish is outside this granularity; see DESIGN.md section 10)"]
+    chk.assumptions += ["interleavings at storage-operation granularity plus akd's guarded scheduling point 'publish:epoch_record_pending'; other points between two statements that perform no storage operation are not explored"]
     return chk.finish()
 
 TABLE = {"C10": c10, "C12": c12, "C13": c13}
